@@ -376,11 +376,12 @@ class TaggedFields(AbstractType[dict[int, bytes]]):
     @classmethod
     def encode(cls, value: dict[int, bytes]) -> bytes:
         ret = UnsignedVarInt32.encode(len(value))
-        for k, v in value.items():
+        for k, v in sorted(value.items()):
             # do we allow for other data types ?? It could get complicated really fast
             assert isinstance(v, bytes), f"Value {v!r} is not a byte array"
-            assert isinstance(k, int) and k > 0, f"Key {k} is not a positive integer"
+            assert isinstance(k, int) and k >= 0, f"Key {k} is not a valid tag"
             ret += UnsignedVarInt32.encode(k)
+            ret += UnsignedVarInt32.encode(len(v))
             ret += v
         return ret
 
